@@ -268,15 +268,27 @@ def main(argv):
             return do_replay(prop, plan, replay, tier, seed)
         log(anchor_oracle())
         reports = []
-        for step in plan["runs"](tier):
-            binp = build_engine(step["engine"], step["cfg"])
+        steps = plan["runs"](tier)
+        bins = [build_engine(step["engine"], step["cfg"]) for step in steps]
+
+        def one(i):
+            step, binp = steps[i], bins[i]
             rpt = os.path.join(OUT, "reports", "%s-%s-%s-%s.json" % (prop, step["engine"], step["cfg"], step.get("tag", "0")))
             os.makedirs(os.path.dirname(rpt), exist_ok=True)
             r = run_engine(binp, step.get("prop", prop), step.get("tier", tier), seed, rpt, step.get("extra", []),
                            step.get("timeout", 3600 if tier == "quick" else 6 * 3600), step_env(step))
             for v in r.get("violations", []):
                 v["_step"] = step
-            reports.append(r)
+            return r
+
+        par = int(plan.get("parallel", 1))
+        if par > 1 and len(steps) > 1:
+            # independent engine runs (different builds of the same enumeration) side by side
+            import concurrent.futures
+            with concurrent.futures.ThreadPoolExecutor(max_workers=par) as ex:
+                reports = list(ex.map(one, range(len(steps))))
+        else:
+            reports = [one(i) for i in range(len(steps))]
         merged = merge_reports(reports)
         if "post" in plan:
             plan["post"](merged, reports, tier)
